@@ -290,6 +290,20 @@ def run(ctx):
             bool_edges(sc, Ts, lambda c: c[0] == "bin" and c[1] == "Ne" and const_of(c[3]) == 0 and M.contains(c[2], lambda u: u[0] == "call" and u[1].endswith("::len")), True)
         ok = len(somes) >= 1 and all(dominated_by_edges(sc, bb, ne) for bb, _, _ in somes)
         ctx.ob("R15.5", "no-empty-piece", ok, sc.loc(0), "every Some(piece) must be returned under `!piece.is_empty()` (both exits of the tokeniser)")
+        # ... and the other direction (completeness): a piece that is not empty is handed out -- with every emptiness test answering
+        # 'not empty' the tokeniser cannot return None (a mutant that turned `return Some(piece)` into `return None` dropped PATH entries)
+        def af_ne(t_):
+            if not t_:
+                return None
+            n_ = M.noref(t_)
+            if n_[0] == "call" and (n_[1] == "std::ffi::OsStr::is_empty" or n_[1].endswith("<impl [T]>::is_empty")):
+                return 0
+            return None
+        Ene = M.Explore(sc, assume_fn=af_ne)
+        nones = [bb for bb in Ene.blocks for s_ in sc.blocks[bb]["stmts"] if s_["k"] == "assign" and s_["p"]["l"] == 0 and not s_["p"]["proj"] and s_["r"].get("variant") == "None"]
+        has_test = any(M.callee_str(t_["f"]) == "std::ffi::OsStr::is_empty" or M.callee_str(t_["f"]).endswith("<impl [T]>::is_empty") for _, t_ in sc.calls())
+        ctx.ob("R15.5", "non-empty-piece-is-returned", has_test and not nones, sc.loc(nones[0] if nones else 0),
+               "with every piece non-empty the tokeniser must not answer None (None returns reachable: %s)" % nones)
     else:
         ctx.missing("R15.5", "split_path closure")
     r0 = M.Terms(sp).local(0)
